@@ -191,36 +191,27 @@ CMR_ERROR CMRlinearhashtableArrayInsertBucketHash(CMR* cmr, CMR_LINEARHASHTABLE_
     /* We now double the size of the hash table. */
 
     size_t newSize = 2 * hashtable->numBuckets;
-    CMR_CALL( CMRreallocBlockArray(cmr, &hashtable->buckets, newSize) );
-    for (size_t i = hashtable->numBuckets; i < newSize; ++i)
-      hashtable->buckets[i].keyLength = 0;
-    size_t oldSize = hashtable->numBuckets;
-    hashtable->numBuckets = newSize;
+    LinearhashtableArrayBucket* newBuckets = NULL;
+    CMR_CALL( CMRallocBlockArray(cmr, &newBuckets, newSize) );
+    for (size_t i = 0; i < newSize; ++i)
+      newBuckets[i].keyLength = 0;
 
-    /* We re-insert each element based on its hash. */
-    for (size_t i = 0; i < oldSize; ++i)
+    /* We re-insert each element based on its hash into the new array to maintain the linear probing invariant. */
+    for (size_t i = 0; i < hashtable->numBuckets; ++i)
     {
       if (!hashtable->buckets[i].keyLength)
         continue;
-      
-      size_t j = linearhashtableArrayHashToBucket(hashtable, hashtable->buckets[i].hash);
-      CMRdbgMsg(2, "Hash %ld was at %d before and would like to be at %d.", hashtable->buckets[i].hash, i, j);
-      while (j != i && hashtable->buckets[j].keyLength)
-        j = (j+1) % hashtable->numBuckets;
-      if (j == i)
-      {
-        CMRdbgMsg(1, "-> next available bucket is old one %d.\n", j);
-      }
-      else
-      {
-        CMRdbgMsg(1, "-> next available bucket is %d. Moving it there.\n", j);
-        hashtable->buckets[j].hash = hashtable->buckets[i].hash;
-        hashtable->buckets[j].keyIndex = hashtable->buckets[i].keyIndex;
-        hashtable->buckets[j].keyLength = hashtable->buckets[i].keyLength;
-        hashtable->buckets[j].value = hashtable->buckets[i].value;
-        hashtable->buckets[i].keyLength = 0;
-      }
+
+      size_t j = hashtable->buckets[i].hash % newSize;
+      while (newBuckets[j].keyLength)
+        j = (j+1) % newSize;
+      CMRdbgMsg(2, "Hash %ld was at %d before and is now at %d.\n", hashtable->buckets[i].hash, i, j);
+      newBuckets[j] = hashtable->buckets[i];
     }
+
+    CMR_CALL( CMRfreeBlockArray(cmr, &hashtable->buckets) );
+    hashtable->buckets = newBuckets;
+    hashtable->numBuckets = newSize;
   }
   
   return CMR_OKAY;
